@@ -17,6 +17,53 @@ CLAIMED = {
   },
 }
 
+CLAIMED.update({
+  "C01": {
+    "text": "Bounded symbolic model checking of the real ISD.from_model: documents are built through the real model API "
+            "from skeletons whose every begin/end/animation time and the query time are z3 Reals and whose region "
+            "references / display values are solver-decided selectors; on every execution path the set and order of "
+            "(region, leaf) pairs of the returned snapshot is compared with an independent reference (TTML2 time "
+            "containment, [associate region], tts:display) by SMT queries answered unsat. All rational times incl. every "
+            "boundary coincidence are covered for each skeleton; skeletons are the bound.",
+    "note": "Trusted: z3, proxy numbers (validated by native re-execution of sampled path models), the reference R-ISD in "
+            "vf/oracles.py. Outside: skeletons not listed, >3 regions, negative offsets, text content other than markers.",
+    "technique": "symbolic execution of real Python code with z3 Real proxies, differential against a reference oracle",
+    "design": "DESIGN.md §3 C01, §7.5",
+  },
+  "C02": {
+    "text": "Symbolic execution of the real ISD.significant_times / generate_isd_sequence / from_model with rational "
+            "time symbols: strict ordering, 'starts no later than first content' (against R-ISD) and completeness "
+            "(snapshot(t) == snapshot(greatest significant time <= t), structural equality incl. computed styles) are "
+            "decided per path by the solver for all rational times of 12 skeletons with <= 6 time symbols.",
+    "note": "Trusted as C01. Completeness compares two snapshots of the implementation; their individual correctness is "
+            "C01/C03. One genuine defect is listed in known_findings.json (set on an element with a begin offset).",
+    "technique": "symbolic execution with z3 Real proxies (sorted()/set fork on pairwise order), SMT query per assertion",
+    "design": "DESIGN.md §3 C02",
+  },
+  "C13": {
+    "text": "Every snapshot produced on every symbolic path of the C01 harness is checked against the documented ISD shape "
+            "(ownership, no timing/animation/region refs, content model, exactly the applicable styles, rh/rw lengths, "
+            "origin==position, no display none, no empty text/childless span, document parameters, empty regions only "
+            "with showBackground always); white-space handling is compared with an XSL-FO based reference over all "
+            "texts of the bounded menu for 6 paragraph shapes x default/preserve.",
+    "note": "Shape assertions are structural facts of a path (the path condition covers all times of that path). The "
+            "white-space harness is a solver-scheduled exhaustive enumeration (no numeric symbol exists there). Known "
+            "finding: tts:disparity lengths are never made root-relative.",
+    "technique": "symbolic execution (paths from C01 harness) + exhaustive selector enumeration for white space",
+    "design": "DESIGN.md §3 C13, §7.5 R-LWSP",
+  },
+  "C14": {
+    "text": "Symbolic execution of ISD.from_model with and without the SignificantTimes cache on 13 documents (0-3 regions, "
+            "backgrounds made visible by specified style / set animation with symbolic interval / initial values), all "
+            "times rational symbols: rendering equality (modulo empty regions that paint nothing) proved per path; purity: "
+            "deep fingerprint of the source document before/after every sequence of <= 2 (quick) / 3 (thorough) calls of "
+            "significant_times / from_model cached+uncached / generate_isd_sequence, each call repeated and compared.",
+    "note": "Trusted as C01. Writers (SRT/VTT/IMSC) as purity operations are covered by the C06/C05 harnesses when built.",
+    "technique": "symbolic execution with z3 Real proxies, structural equality of snapshots per path",
+    "design": "DESIGN.md §3 C14",
+  },
+})
+
 NOT_YET = {
 }
 
